@@ -131,6 +131,7 @@ class Memory:
             gg = gand(guard, g)
             if gg is False: continue
             if a is None:
+                if s.e.opts.get('feas') and not isinstance(gg, bool) and not s.e.feasible(gg): continue
                 s.e.add_check(gg, 'ENGINE-LIMIT non-enumerable pointer in ' + what, 'limit'); continue
             if check and not s.check_access(a, size, gg, what): continue
             if not check and s.region_of(a) is None: continue
@@ -142,6 +143,7 @@ class Memory:
             gg = gand(guard, g)
             if gg is False: continue
             if a is None:
+                if s.e.opts.get('feas') and not isinstance(gg, bool) and not s.e.feasible(gg): continue
                 s.e.add_check(gg, 'ENGINE-LIMIT non-enumerable pointer in ' + what, 'limit'); continue
             if not s.check_access(a, size, gg, what): continue
             s.store1(a, size, val, gg)
